@@ -367,6 +367,58 @@ def check_sly_defaulted(ctx):
     ctx.count('sly_defaulted_cases', len(cases))
 
 
+def check_sly_recovery(ctx):
+    """Panic-mode recovery of the vendored driver: once the stack is rolled back to the initial state the offending token and
+    everything saved for re-reading must be thrown away (otherwise input that was part of a rejected statement is parsed
+    again as a fresh statement).  Part of the reading of Parser.parse the structural argument rests on - checked, not trusted."""
+    file = 'sly/yacc.py'
+    tree = ctx.src.tree(file)
+    cls = [n for n in tree.body if isinstance(n, ast.ClassDef) and n.name == 'Parser']
+    ctx.need(cls, 'sly/yacc.py: class Parser not found')
+    parse = [n for n in cls[0].body if isinstance(n, ast.FunctionDef) and n.name == 'parse']
+    ctx.need(parse, 'sly/yacc.py: Parser.parse not found')
+    parse = parse[0]
+    # pending-input variables: the current look-ahead and every local list that tokens are pushed back on
+    stacks = set()
+    for n in ast.walk(parse):
+        if isinstance(n, ast.Call) and isinstance(n.func, ast.Attribute) and n.func.attr == 'append' and isinstance(n.func.value, ast.Name) \
+                and n.args and norm(n.args[0]) == 'lookahead':
+            stacks.add(n.func.value.id)
+    stacks.discard('symstack')
+    ctx.need(stacks, 'Parser.parse: no push-back stack for the look-ahead found')
+    case1 = [n for n in ast.walk(parse) if isinstance(n, ast.If) and 'len(statestack) <= 1' in norm(n.test)]
+    ctx.need(len(case1) == 1, f'Parser.parse: the rolled-back-to-the-start case of error recovery was not found ({len(case1)} candidates)')
+    body = case1[0].body
+    clears_la = any(isinstance(st, ast.Assign) and norm(st.targets[0]) == 'lookahead' and isinstance(st.value, ast.Constant) and st.value.value is None for st in body)
+    cleared = set()
+    for st in body:
+        if isinstance(st, ast.Delete):
+            for t in st.targets:
+                if isinstance(t, ast.Subscript) and isinstance(t.value, ast.Name) and isinstance(t.slice, ast.Slice) and t.slice.lower is None and t.slice.upper is None:
+                    cleared.add(t.value.id)
+        if isinstance(st, ast.Expr) and isinstance(st.value, ast.Call) and isinstance(st.value.func, ast.Attribute) and st.value.func.attr == 'clear' \
+                and isinstance(st.value.func.value, ast.Name):
+            cleared.add(st.value.func.value.id)
+        if isinstance(st, ast.Assign) and isinstance(st.targets[0], ast.Name) and isinstance(st.value, ast.List) and not st.value.elts:
+            cleared.add(st.targets[0].id)
+    resets_state = any((isinstance(st, ast.Assign) and norm(st.targets[0]) == 'self.state' and norm(st.value) == '0')
+                       or (isinstance(st, ast.Expr) and isinstance(st.value, ast.Call) and norm(st.value.func) == 'self.restart') for st in body)
+    ctx.ob('C05.sly-recovery', 'discard-lookahead', clears_la,
+           'sly Parser.parse, recovery with the stack rolled back to the start: the offending token must be discarded (lookahead = None)', file=file,
+           line=case1[0].lineno)
+    ctx.ob('C05.sly-recovery', 'discard-pushed-back-tokens', stacks <= cleared,
+           f'sly Parser.parse, recovery with the stack rolled back to the start: the tokens pushed back for re-reading ({sorted(stacks - cleared)}) are not '
+           f'thrown away, so the token that made the statement invalid is read again as the start of a fresh statement and a non-sentence is accepted',
+           file=file, line=case1[0].lineno, witness='drop table a commit')
+    ctx.ob('C05.sly-recovery', 'restart-state', resets_state and isinstance(body[-1], ast.Continue),
+           'sly Parser.parse, recovery with the stack rolled back to the start: the driver must continue from state 0', file=file, line=case1[0].lineno)
+    # at end of input the driver gives up (returns None), it never synthesises an accept
+    eof = [n for n in ast.walk(parse) if isinstance(n, ast.If) and norm(n.test) == "lookahead.type == '$end'" and any(isinstance(x, ast.Return) and x.value is None for x in n.body)]
+    ctx.ob('C05.sly-recovery', 'gives-up-at-end', len(eof) >= 1,
+           'sly Parser.parse: during recovery at end of input the driver must return None (parse_sql turns it into ParsingException)', file=file, line=parse.lineno)
+    ctx.count('sly_recovery_checks', 4)
+
+
 def run(ctx):
     ctx.explanation = (
         'Structural argument + exhaustive table scan. For each of the three parser classes: no production mentions '
@@ -385,6 +437,7 @@ def run(ctx):
         check_error_callback(ctx, d, g)
     check_parse_sql(ctx)
     check_sly_defaulted(ctx)
+    check_sly_recovery(ctx)
     ctx.floor('grammars', 3)
     ctx.floor('error_callbacks', 3)
     ctx.floor('accept_checks', 3)
